@@ -8,7 +8,7 @@ use crate::refchess::{Kind, Pos};
 use crate::framework::Tape;
 use serde_json::json;
 
-pub const RULE: &str = "game histories: real moves only, from legal roots incl. FEN roots with halfmove clock in {0,1,3,5,49,50,97..101,150} and no history, chosen with a shuffle bias (prefer undoing the move of two plies ago) so that repetitions, repetitions spoiled by a rights / e.p. difference and clocks crossing 100 are common; a second family interleaves search-like null moves and take-backs. After every step, against the reference's own list of earlier positions: is_repeated_position() <=> an earlier position since the last capture or pawn move has the same identity (both directions on real-move histories; with null moves on the stack only 'true => such a position exists'); is_stalemate_by_fifty_move_rule() <=> clock >= 100 and a legal move exists; is_stalemate_by_insufficient_material() is true for K v K and K+minor v K, false whenever a pawn, rook or queen is on the board or more than two minors remain, unconstrained otherwise. Search level ('draw_available_search'): when some legal move leads to a position drawn by the game history (repetition - possibly more than 50 plies back -, fifty-move rule, dead material), a depth 1-3 search with that history must not report a negative score; 'far_back_repetition_search' applies the same demand to constructed games in which both kings walk closed tours of coprime lengths 3..8 while one side has spare pawns, so that the first recurrence of the whole position lies 24..112 plies back and the worse side is to move one ply before it. After each of these searches (fresh table) the table must hold no draw score under the key of an earlier position of the game (a draw by history must not leak into a table that later games share). Non-trivial = history in which the expected repetition verdict is true at least once, or the clock crosses 99->100, or a repetition candidate is spoiled by a rights / e.p. difference; distinct by (root, op list).";
+pub const RULE: &str = "game histories: real moves only, from legal roots incl. FEN roots with halfmove clock in {0,1,3,5,49,50,97..101,150} and no history, chosen with a shuffle bias (prefer undoing the move of two plies ago) so that repetitions, repetitions spoiled by a rights / e.p. difference and clocks crossing 100 are common; a second family interleaves search-like null moves and take-backs. After every step, against the reference's own list of earlier positions: is_repeated_position() <=> an earlier position since the last capture or pawn move has the same identity (both directions on real-move histories; with null moves on the stack only 'true => such a position exists'); is_stalemate_by_fifty_move_rule() <=> clock >= 100 and a legal move exists; is_stalemate_by_insufficient_material() is true for K v K and K+minor v K, false whenever a pawn, rook or queen is on the board or more than two minors remain, unconstrained otherwise. Search level ('draw_available_search'): when some legal move leads to a position drawn by the game history (repetition - possibly more than 50 plies back -, fifty-move rule, dead material), a depth 1-3 search with that history must not report a negative score; 'far_back_repetition_search' applies the same demand to constructed games in which both kings walk closed tours of coprime lengths 3..8 while one side has spare pawns, so that the first recurrence of the whole position lies 24..112 plies back and the worse side is to move one ply before it. 'every_reply_is_a_draw_search': positions at halfmove clock 99 and more (a constructed family in which a quiet check can only be answered by a pawn move, and sparse positions) in which every legal move leads to an immediately drawn position must be scored exactly 0 at depth 1-4. After each of these searches (fresh table) the table must hold no draw score under the key of an earlier position of the game (a draw by history must not leak into a table that later games share). Non-trivial = history in which the expected repetition verdict is true at least once, or the clock crosses 99->100, or a repetition candidate is spoiled by a rights / e.p. difference; distinct by (root, op list).";
 
 #[derive(Default)]
 struct Obs {
@@ -395,6 +395,115 @@ pub fn run(run: &mut Run) -> &'static str {
         for info in &out.infos {
             if info.mate.map_or(false, |n| n < 0) || info.cp.map_or(false, |c| c < 0) {
                 return Err(Fail::new("search:draw_not_taken_into_account", format!("{} after {} plies: the move(s) {drawing:?} lead to a position drawn by the game history, yet the search reports '{}'", cur.to_fen(), ops.len(), info.text())).explicit(ex()));
+            }
+        }
+        Ok(())
+    });
+    // the other direction at the fifty-move limit: when *every* legal move leads to a position that is
+    // drawn at once (clock reaches 100 and the opponent still has a legal move - also when he is in
+    // check -, or dead material), every score the search reports must be exactly 0
+    let cases = run.tier.pick(12_000, 300_000);
+    run.proptest_part("every_reply_is_a_draw_search", RULE, hist_case(24..80), cases, |case: &HistCase, st: &mut Stats| {
+        use super::searchlib::{build, run_search, Limit, SearchSpec};
+        use crate::refchess::{sq, Pc};
+        let (root, depth): (Pos, u8) = match case {
+            HistCase::Tape(data) => {
+                let mut t = Tape::new(data);
+                let p = if t.pick(2) == 0 {
+                    // cornered king behind its own pawns, a rook holding the g-file, a bishop or queen one
+                    // quiet move away from checking on the long diagonal: the only answer to that check is
+                    // a pawn move (which would reset the clock if the rule had not already drawn the game)
+                    let mut p = Pos::empty();
+                    p.board[sq(7, 7) as usize] = Some(Pc::new(false, Kind::K));
+                    p.board[sq(7, 6) as usize] = Some(Pc::new(false, Kind::P));
+                    p.board[sq(5, 6) as usize] = Some(Pc::new(false, Kind::P));
+                    p.board[sq(6, t.pick(5) as i32) as usize] = Some(Pc::new(true, Kind::R));
+                    let checker = if t.pick(3) == 0 { Kind::Q } else { Kind::B };
+                    let from = [sq(2, 0), sq(0, 2), sq(3, 1), sq(1, 3), sq(4, 2), sq(2, 4)][t.pick(6)];
+                    if p.board[from as usize].is_some() {
+                        return Ok(());
+                    }
+                    p.board[from as usize] = Some(Pc::new(true, checker));
+                    for _ in 0..t.pick(3) {
+                        let s = sq(t.pick(5) as i32, 6);
+                        if p.board[s as usize].is_none() {
+                            p.board[s as usize] = Some(Pc::new(false, Kind::P));
+                        }
+                    }
+                    for _ in 0..8 {
+                        let s = t.pick(64) as u8;
+                        if p.board[s as usize].is_none() && crate::refchess::rank_of(s) < 5 {
+                            p.board[s as usize] = Some(Pc::new(true, Kind::K));
+                            break;
+                        }
+                    }
+                    p.white_to_move = true;
+                    p.halfmove = 99;
+                    p.fullmove = 60 + t.pick(60) as u32;
+                    if t.pick(2) == 0 {
+                        p = p.mirror();
+                    }
+                    p
+                } else {
+                    let Some(g) = crate::gen::gen_root(&mut t, Mix::Sparse) else {
+                        st.discard();
+                        return Ok(());
+                    };
+                    let mut p = g.pos;
+                    p.ep = None;
+                    p.halfmove = [99u32, 99, 100, 130][t.pick(4)];
+                    p.fullmove = p.fullmove.max(70);
+                    p
+                };
+                (p, 1 + t.pick(4) as u8)
+            }
+            HistCase::Explicit { fen, ops } => match Pos::from_fen(fen) {
+                Ok(p) => (p, 1 + (ops.len() % 4) as u8),
+                Err(_) => return Ok(()),
+            },
+        };
+        if root.validate().is_err() {
+            st.discard();
+            return Ok(());
+        }
+        let legal = root.legal_moves();
+        if legal.is_empty() {
+            st.discard();
+            return Ok(());
+        }
+        let mut checks_with_only_irreversible_answers = 0;
+        for m in &legal {
+            let child = root.make(m);
+            let replies = child.legal_moves();
+            // (a child without legal moves is mate or stalemate: neither is one of the three rules of this
+            // property, and a shallow search sees stalemate only when it looks one ply further)
+            let drawn = !replies.is_empty() && (child.halfmove >= 100 || material_verdict(&child) == Some(true));
+            if !drawn {
+                st.class("some_reply_is_not_a_draw(control)");
+                return Ok(());
+            }
+            if child.in_check() && !replies.is_empty() && replies.iter().all(|r| r.capture || child.board[r.from as usize].map_or(false, |pc| pc.kind == Kind::P)) {
+                checks_with_only_irreversible_answers += 1;
+            }
+        }
+        st.eval();
+        st.class("every_reply_is_a_draw");
+        if checks_with_only_irreversible_answers > 0 {
+            st.class("a_checking_move_can_only_be_answered_by_a_capture_or_pawn_move");
+            st.nontrivial(&root.identity());
+            if st.want_nontrivial_sample() {
+                st.nontrivial_sample(json!({"position": root.to_fen(), "depth": depth}));
+            }
+        }
+        let ops: Vec<String> = vec!["x".to_string(); (depth - 1) as usize];
+        let ex = || json!({"Explicit": {"fen": root.to_fen(), "ops": ops}});
+        let spec = SearchSpec { fen: root.to_fen(), moves: vec![], limit: Limit::Depth(depth) };
+        let Some((_, game)) = build(&spec) else { return Ok(()) };
+        let mut state = crate::engine::search::PersistentState::new(1);
+        let out = run_search(&game, &mut state, &spec.limit, 0).map_err(|pm| Fail::new(&format!("search_panic:{}", panic_signature(&pm)), format!("search at {} panicked: {pm}", root.to_fen())).explicit(ex()))?;
+        for info in &out.infos {
+            if info.mate.is_some() || info.cp != Some(0) {
+                return Err(Fail::new("search:drawn_position_not_scored_as_draw", format!("{}: every legal move leads to a position that is drawn at once (fifty-move rule / dead material), yet the search reports '{}'", root.to_fen(), info.text())).explicit(ex()));
             }
         }
         Ok(())
